@@ -406,8 +406,12 @@ class SqliteMap(BaseMap):
              'WHERE n.id = ni.id ')
         if bb:
             minY, minX, maxY, maxX = bb
-            q += 'AND ni.minX >= ? AND ni.maxX <= ? AND ni.minY >= ? AND ni.maxY <= ?'
-            c.execute(q, (minX, maxX, minY, maxY))
+            # The index stores 32-bit coordinates that are rounded outwards: containment in the box would miss nodes
+            # close to the border (up to a meter for projected coordinates around 1e7). Use the index as a
+            # pre-filter (overlap) and compare the exact coordinates.
+            q += ('AND ni.maxX >= ? AND ni.minX <= ? AND ni.maxY >= ? AND ni.minY <= ? '
+                  'AND n.x >= ? AND n.x <= ? AND n.y >= ? AND n.y <= ?')
+            c.execute(q, (minX, maxX, minY, maxY, minX, maxX, minY, maxY))
         else:
             c.execute(q)
 
